@@ -137,17 +137,45 @@ def check(ctx):
     PA = gsa.summarise(ctx, 'annotationparser', 'GtkDocCommentBlockParser._parse_annotation', inline_only=())
     annp = [a_.arg for a_ in pa.args.args][-1]
     names = []
+    renames = {}
+
+    def add_name(node):
+        # a rename table `{OLD: NEW, ...}.get(name[, name])` names either a NEW constant or nothing new
+        if isinstance(node, ast.Call) and isinstance(node.func, ast.Attribute) and node.func.attr == 'get' and node.args:
+            tab = node.func.value
+            if isinstance(tab, ast.Name) and len(m.assigns.get(tab.id, ())) == 1:
+                tab = m.assigns[tab.id][0]
+            if isinstance(tab, ast.Dict) and all(k is not None for k in tab.keys):
+                for k, v in zip(tab.keys, tab.values):
+                    renames[gsa._unparse(k)] = gsa._unparse(v)
+                    add_name(v)
+                for x in node.args[1:2]:
+                    add_name(x)
+                if len(node.args) == 1:
+                    add_name(node.args[0])
+                return
+        t_ = gsa._unparse(node)
+        if t_ not in names:
+            names.append(t_)
     for g, n in PA.returns:
         if isinstance(n, ast.Tuple) and len(n.elts) == 2:
-            t_ = gsa._unparse(n.elts[0])
-            if t_ not in names:
-                names.append(t_)
+            add_name(n.elts[0])
     derived = [t_ for t_ in names if not re.match(r'^(None|ANN_\w+)$', t_)]
-    NAME_RE = r"^%s(\.replace\('<', ANN_LPAR\)\.replace\('>', ANN_RPAR\))?\.(split\(' ', 1\)|partition\(' '\))\[0\]\.lower\(\)$" % re.escape(annp)
-    r1.check(len(derived) == 1 and re.match(NAME_RE, derived[0]), 'annotation name only lower-cased', rel, pa.lineno,
+
+    def angle_table(name):
+        try:
+            return py.fold_name(m, name) == {ord('<'): ord(lpar), ord('>'): ord(rpar)}
+        except Exception:
+            return False
+    NAME_RE = r"^%s(\.replace\('<', ANN_LPAR\)\.replace\('>', ANN_RPAR\)|\.translate\((?P<tab>\w+)\))?\.(split\(' ', 1\)|partition\(' '\))\[0\]\.lower\(\)$" % re.escape(annp)
+    nm_ = re.match(NAME_RE, derived[0]) if len(derived) == 1 else None
+    if nm_ and nm_.group('tab') and not angle_table(nm_.group('tab')):
+        nm_ = None
+    r1.check(len(derived) == 1 and bool(nm_), 'annotation name only lower-cased', rel, pa.lineno,
              'annotation name is derived as `%s`: a name written by the user (or by the comment writer) is parsed back as a different one' % derived, detail=derived)
     others = sorted(t_ for t_ in names if re.match(r'^ANN_\w+$', t_))
-    r1.check(others == ['ANN_ATTRIBUTES', 'ANN_INOUT'], 'only the two deprecated spellings are renamed', rel, pa.lineno, 'other renames: %s' % others)
+    r1.check(others == ['ANN_ATTRIBUTES', 'ANN_INOUT'] and renames in ({}, {'ANN_INOUT_ALT': 'ANN_INOUT', 'ANN_ATTRIBUTE': 'ANN_ATTRIBUTES'}),
+             'only the two deprecated spellings are renamed', rel, pa.lineno, 'other renames: %s %s' % (others, renames))
     psplit = splitters(PA, ' ')
     r1.check(len(psplit) == 1 and ((psplit[0].target.endswith('.split') and psplit[0].args == ["' '", '1']) or (psplit[0].target.endswith('.partition') and psplit[0].args == ["' '"])),
              'name/options split at the first space', rel, pa.lineno, 'splits: %s' % [c.value for c in psplit])
